@@ -211,6 +211,30 @@ def check(run):
         nt('other-particles')
         if run.too_many():
             return
+    # the mode counts of a binning depend on the mesh and that binning only -- not on which other binnings were asked for before.
+    # The same binning (edges given in units of the Nyquist wavenumber) is requested (a) as the first request on a box of its own
+    # and (b) on another box after a different binning with the same number of edges and the same end points: equal N_mode.
+    for t, (nmesh, paste) in enumerate([(12, 'TSC'), (16, 'CIC'), (9, 'TSC')]):
+        E = [np.array([0.0, 0.21, 0.5, 0.77, 0.93]), np.array([0.0, 0.33, 0.41, 0.62, 0.93])]
+        M = [4, np.array([0.0, 0.1, 0.35, 0.8, 1.0])]
+        res = {}
+        for label, box, order in (('first-request', float(nmesh) * (2.0 + t), (1,)), ('after-another-binning', float(nmesh) * (4.0 + t), (0, 1))):
+            kN = np.pi * nmesh / box
+            pos, idx = lattice(rng, 3000, nmesh, box, clustered=True)
+            for j2 in order:
+                conf = dict(nmesh=nmesh, paste=paste, compensated=True, interlaced=bool(t % 2), kw=dict(kbins=E[j2] * kN, mubins=M[j2], poles=[0, 2]), nthread=4, dtype=np.float32)
+                run.ev()
+                res[label] = safe_power(ps, pos, box, conf)
+        desc = dict(nmesh=nmesh, paste=paste, family='same binning (in mesh units) as a first request vs after another binning with equal edge count and end points')
+        A, B = res['first-request'], res['after-another-binning']
+        if isinstance(A, Raised) or isinstance(B, Raised):
+            compare_tables(run, A, B, desc, 'request-history')
+            continue
+        run.nt(('history', nmesh, paste))
+        for c in ('N_mode', 'N_mode_poles', 'mu_min', 'mu_max'):
+            if c in A.colnames and not np.array_equal(np.asarray(A[c]), np.asarray(B[c])):
+                run.violation('power-request-history-exact-column', dict(column=c, first_request=np.asarray(A[c]).ravel()[:8], after_another_binning=np.asarray(B[c]).ravel()[:8], **desc))
+                break
     # particle counts just past internal batch / threshold sizes (2^16, 2^20), not multiples of them, for both mass-assignment
     # schemes with interlacing and weights: permutation and thread-count invariance
     sizes = [(2**20 + 300001, 'CIC'), (2**16 + 1, 'CIC'), (2**20 + 300001, 'TSC')] if run.quick else [(2**20 + 300001, 'CIC'), (2**16 + 1, 'CIC'), (2**20 + 300001, 'TSC'), (2**21 + 17, 'CIC'), (3 * 2**20 - 1, 'TSC'), (2**20, 'CIC'), (2**20 + 1, 'CIC')]
